@@ -6,7 +6,8 @@
    that then succeed, and the lift / wrap steps (replace-around), are evaluated per case by Corr.C12. *)
 From Coq Require Import List Arith.
 From PM Require Import Model.Data Model.Mark Model.Tree Model.Step Spec.Tokens
-  Proofs.ReplaceValid Proofs.SliceSides Proofs.TokenBasics Proofs.ReplaceTokens Proofs.SliceShape Proofs.TokenLaws.
+  Proofs.ReplaceValid Proofs.SliceSides Proofs.TokenBasics Proofs.ReplaceTokens Proofs.SliceShape Proofs.TokenLaws
+  Proofs.AroundLaws.
 Import ListNotations.
 
 Theorem C12_structure_only_step_keeps_leaves : forall s from to sl structure doc d',
@@ -17,3 +18,16 @@ Theorem C12_structure_only_step_keeps_leaves : forall s from to sl structure doc
   leaves (DT s d') = leaves (DT s doc).
 Proof. exact replace_step_structure_only. Qed.
 Print Assumptions C12_structure_only_step_keeps_leaves.
+
+(* lift and wrap (and set_block_type / set_node_markup) are replace-around steps: if the two replaced
+   ranges around the gap contain no text or leaf token and the slice stands for none, the sequence of text
+   and leaf tokens is exactly preserved *)
+Theorem C12_structure_only_around_step_keeps_leaves : forall s from to gf gt sl ins structure doc d',
+  check s doc = true ->
+  Shape s (sl_content sl) (sl_open_start sl) (sl_open_end sl) ->
+  from <= gf -> gf <= gt -> gt <= to -> ins <= length (IT s sl) ->
+  apply s (SReplaceAround from to gf gt sl ins structure) doc = ROk d' ->
+  leaves (seg (DT s doc) from gf) = [] -> leaves (seg (DT s doc) gt to) = [] -> leaves (IT s sl) = [] ->
+  leaves (DT s d') = leaves (DT s doc).
+Proof. exact around_step_structure_only. Qed.
+Print Assumptions C12_structure_only_around_step_keeps_leaves.
